@@ -110,26 +110,59 @@ func isEmptyStringStoreTo(in ssa.Instruction, field string) bool {
 // returnedValue resolves a result of a return, seeing through the spill cell go/ssa uses
 // when the function has deferred calls (*cell = v; rundefers; return *cell).
 func returnedValue(ret *ssa.Return, i int) ssa.Value {
-	v := ret.Results[i]
+	return resolveSpilled(ret.Results[i], ret, 0)
+}
+
+// resolveSpilled follows loads of a local cell (named results are spilled to memory when the
+// function defers) back to the value stored: the last store before the load in its block, else
+// the closest dominating store when no other store can intervene.
+func resolveSpilled(v ssa.Value, at ssa.Instruction, depth int) ssa.Value {
 	u, ok := v.(*ssa.UnOp)
-	if !ok || u.Op != token.MUL {
+	if !ok || u.Op != token.MUL || depth > 6 {
 		return v
 	}
 	a, ok := u.X.(*ssa.Alloc)
 	if !ok {
 		return v
 	}
-	var last ssa.Value
-	for _, in := range ret.Block().Instrs {
+	var last *ssa.Store
+	for _, in := range u.Block().Instrs {
 		if st, ok := in.(*ssa.Store); ok && st.Addr == ssa.Value(a) {
-			last = st.Val
+			last = st
 		}
 		if in == ssa.Instruction(u) {
 			break
 		}
 	}
 	if last != nil {
-		return last
+		return resolveSpilled(last.Val, last, depth+1)
+	}
+	var cands []*ssa.Store
+	for _, ref := range *a.Referrers() {
+		if st, ok := ref.(*ssa.Store); ok && st.Addr == ssa.Value(a) {
+			cands = append(cands, st)
+		}
+	}
+	for _, c := range cands {
+		if !InstrDominates(c, u) {
+			continue
+		}
+		closest := true
+		for _, o := range cands {
+			if o == c {
+				continue
+			}
+			if InstrDominates(o, u) {
+				if !InstrDominates(o, c) {
+					closest = false
+				}
+			} else if InstrReaches(c, o) && InstrReaches(o, u) {
+				closest = false // a store on some path between c and the load
+			}
+		}
+		if closest {
+			return resolveSpilled(c.Val, c, depth+1)
+		}
 	}
 	return v
 }
